@@ -474,7 +474,7 @@ PROPS = {
         "explanation": "C04.* theorems; sdd stream: the clauses of well-formedness evaluated on the implementation's results, equality classes vs functions, model == implementation.",
     },
     "C18": {
-        "modules": ["RsddModel.Props.C18"],
+        "modules": ["RsddModel.Props.C18", "RsddModel.Props.TieFfi"],
         "streams": [FFI_STREAM],
         "rule": "call sequences over {bdd_true/false, bdd_var, bdd_new_var, bdd_negate, bdd_and, bdd_or, bdd_ite, bdd_compose} on a manager created by "
                 "mk_bdd_manager_default_order, run through the exported C symbols (linked into the harness through extern \"C\" declarations) and "
